@@ -113,13 +113,15 @@ func init() {
 				}
 				cs = append(cs, fw.Case{ID: "gnark/A_testdata/k=1/fixed", Kind: "gnark", P: map[string]any{"inst": "A_testdata", "k": 1, "wrapper": "fixed"}})
 				// the whole circuit compiled with gnark's real builders and solved with the real solver
-				cs = append(cs, fw.Case{ID: "compiled/r1cs/A_testdata/k=1/fixed", Kind: "compiled", P: map[string]any{"inst": "A_testdata", "k": 1, "wrapper": "fixed", "sys": "r1cs"}})
+				// (the deployed configuration: CircuitFixed, all 28 rounds, R1CS, commit range checker)
+				cs = append(cs, fw.Case{ID: "compiled/r1cs/A_testdata/k=28/fixed", Kind: "compiled", P: map[string]any{"inst": "A_testdata", "k": 28, "wrapper": "fixed", "sys": "r1cs"}})
 				if !ctx.Quick {
-					for _, sys := range []string{"r1cs", "scs"} {
-						cs = append(cs, fw.Case{ID: "compiled/" + sys + "/A_testjson/k=2/verifier", Kind: "compiled", P: map[string]any{"inst": "A_testjson", "k": 2, "wrapper": "verifier", "sys": sys}})
-						cs = append(cs, fw.Case{ID: "compiled/" + sys + "/B_epoch_4RjX/k=1/verifier", Kind: "compiled", P: map[string]any{"inst": "B_epoch_4RjX", "k": 1, "wrapper": "verifier", "sys": sys}})
-					}
-					cs = append(cs, fw.Case{ID: "compiled/scs/A_testdata/k=1/fixed", Kind: "compiled", P: map[string]any{"inst": "A_testdata", "k": 1, "wrapper": "fixed", "sys": "scs"}})
+					cs = append(cs, fw.Case{ID: "compiled/r1cs/A_testjson/k=28/verifier", Kind: "compiled", P: map[string]any{"inst": "A_testjson", "k": 28, "wrapper": "verifier", "sys": "r1cs"}})
+					cs = append(cs, fw.Case{ID: "compiled/r1cs/B_epoch_4RjX/k=28/verifier", Kind: "compiled", P: map[string]any{"inst": "B_epoch_4RjX", "k": 28, "wrapper": "verifier", "sys": "r1cs"}})
+					cs = append(cs, fw.Case{ID: "compiled/r1cs/B_random_CGZ/k=3/verifier", Kind: "compiled", P: map[string]any{"inst": "B_random_CGZ", "k": 3, "wrapper": "verifier", "sys": "r1cs"}})
+					cs = append(cs, fw.Case{ID: "compiled/scs/A_testdata/k=28/fixed", Kind: "compiled", P: map[string]any{"inst": "A_testdata", "k": 28, "wrapper": "fixed", "sys": "scs"}})
+					cs = append(cs, fw.Case{ID: "compiled/scs/B_epoch_CbAH/k=28/verifier", Kind: "compiled", P: map[string]any{"inst": "B_epoch_CbAH", "k": 28, "wrapper": "verifier", "sys": "scs"}})
+					cs = append(cs, fw.Case{ID: "compiled/scs/A_testjson/k=5/verifier", Kind: "compiled", P: map[string]any{"inst": "A_testjson", "k": 5, "wrapper": "verifier", "sys": "scs"}})
 				}
 				cs = append(cs, fw.Case{ID: "gnark-control/A_testdata/k=1", Kind: "gnarkcontrol", P: map[string]any{"inst": "A_testdata", "k": 1}})
 				// one VerifierChip verifying several proofs in one circuit (state kept by any chip must not leak)
@@ -205,7 +207,9 @@ func init() {
 					}
 					var ccs constraint.ConstraintSystem
 					var err error
-					harn.Protect(func() { ccs, err = frontend.Compile(ecc.BN254.ScalarField(), nb, mk(in.Clone())) })
+					harn.Big(func() {
+						harn.Protect(func() { ccs, err = frontend.Compile(ecc.BN254.ScalarField(), nb, mk(in.Clone())) })
+					})
 					if err != nil {
 						return fw.Violate("compile_fails_on_valid_template:"+c.Str("sys"), fmt.Sprintf("case %s: %v", c.ID, trunc(err.Error(), 200)))
 					}
